@@ -16,19 +16,19 @@ namespace TD.C08
 /-- **Component block round trip.** A block built by `CbEngValWrite(t, v, m, units=u)` from a legal value (byte string
 of at most 255 bytes → code 65, float → 68, integer → 66 / 79 / 73 by range) with 4-byte mnemonic and units is written
 by `lisBytes()` and read back by `CbEngValRead` with the same type, code, size, category, mnemonic and units and the
-value `rtVal v` (`v` itself for bytes and integers, `from68(to68 v)` for floats) — unless it is an empty byte string at
-the very end of the logical data (finding C08-EMPTYLAST: it then reads as `None`). -/
+value `rtVal v` (`v` itself for bytes and integers, `from68(to68 v)` for floats), whatever follows it — also an empty
+byte string at the very end of the logical data. -/
 theorem cb_roundtrip (t : Nat) (v : Val) (m : Bytes) (u : Option Bytes) (rest : Bytes)
-    (ht : t = 73 ∨ t = 0 ∨ t = 69) (hv : v.legal) (hm : m.length = 4) (hu : (unitsOf u).length = 4)
-    (hne : v = .bytes [] → rest ≠ []) :
+    (ht : t = 73 ∨ t = 0 ∨ t = 69) (hv : v.legal) (hm : m.length = 4) (hu : (unitsOf u).length = 4) :
     ∃ cb bs, cbWrite t v m u = .ok cb ∧ encCb cb = .ok bs ∧
       readCb (bs ++ rest) = .ok (⟨t, rcOf v, sizeOf v, 0, m, unitsOf u, some (rtVal v)⟩, rest) := by
-  obtain ⟨bs, he, _, hr⟩ := cb_enc_read t v m (unitsOf u) rest (by omega) hv hm hu hne
+  obtain ⟨bs, he, _, hr⟩ := cb_enc_read t v m (unitsOf u) rest (by omega) hv hm hu
   exact ⟨_, bs, cbWrite_eq t v m u ht hv, he, hr⟩
 
-/-- the empty-bytes-at-the-end case is really different: the value comes back as `None` (what the code does) -/
-theorem cb_empty_last_reads_none (t : Nat) (m un : Bytes) (hm : m.length = 4) (hu : un.length = 4) :
-    readCb ([t, 65, 0, 0] ++ m ++ un) = .ok (⟨t, 65, 0, 0, m, un, none⟩, []) := by
+/-- an empty text block at the very end of the logical data reads as the empty byte string (it read as `None` before
+the repair of finding C08-EMPTYLAST) -/
+theorem cb_empty_last_reads_empty (t : Nat) (m un : Bytes) (hm : m.length = 4) (hu : un.length = 4) :
+    readCb ([t, 65, 0, 0] ++ m ++ un) = .ok (⟨t, 65, 0, 0, m, un, some (.bytes [])⟩, []) := by
   obtain ⟨m0, m1, m2, m3, rfl⟩ := len4 m hm
   obtain ⟨u0, u1, u2, u3, rfl⟩ := len4 un hu
   simp [readCb, unpackN, readLr]
@@ -44,7 +44,6 @@ def allRowCbs (t : TableSpec) : List (List Cb) := t.rows.map (fun r => rowCbsFro
 structure TableOk (t : TableSpec) : Prop where
   lrType : isTableLrType t.lrType = true
   nameLegal : t.name.legal
-  nameNe : t.name ≠ .bytes []
   mnems4 : ∀ m ∈ t.mnems, m.length = 4
   mnemsNodup : t.mnems.Nodup
   mnemsNe : t.mnems ≠ []
@@ -52,10 +51,6 @@ structure TableOk (t : TableSpec) : Prop where
   cells : ∀ r ∈ t.rows, ∀ c ∈ r, c.v.legal ∧ (unitsOf c.u).length = 4
   /-- row names are not changed by a write/read cycle (bytes, integers, code-68 representable floats) -/
   stableNames : ∀ r ∈ t.rows, ∀ c, r.head? = some c → rtVal c.v = c.v
-  /-- a column named `MNEM` holds byte strings (otherwise: finding C08-MNEMTYPE, `TypeError`) -/
-  mnemCol : ∀ r ∈ allRowCbs t, MnemOk r
-  /-- the very last block written is not an empty byte string (otherwise: finding C08-EMPTYLAST) -/
-  lastNonEmpty : ∀ cb, ((kept (allRowCbs t)).flatten).getLast? = some cb → cb.val ≠ some (.bytes [])
 
 theorem rowValue_rowCbs (r : List Cell) (ms : List Bytes) (hl : r.length = ms.length) (hne : ms ≠ []) :
     ∃ c, r.head? = some c ∧ rowValue (rowCbsFrom 0 r ms) = some c.v := by
@@ -88,7 +83,7 @@ theorem table_roundtrip (t : TableSpec) (ok : TableOk t) :
     simp only [tableWrite, hlt, if_false, htcb]
     exact writeRows_eq t.mnems ok.mnemsNe t.rows st0 rfl ok.rowLen (fun r hr x hx => (ok.cells r hr x hx).1)
   have hinv0 : Inv st0 := ⟨rfl, rfl⟩
-  obtain ⟨W, hW, hWt, _, hWr, hWc⟩ := runRows_spec (allRowCbs t) ok.mnemCol st0 hinv0
+  obtain ⟨W, hW, hWt, _, hWr, hWc⟩ := runRows_spec (allRowCbs t) st0 hinv0
   have hWr' : W.rows = kept (allRowCbs t) := by simpa [st0, TS.empty, kept] using hWr
   have hallmn : ∀ r ∈ allRowCbs t, r.map (·.mnem) = t.mnems := by
     intro r hr
@@ -146,23 +141,13 @@ theorem table_roundtrip (t : TableSpec) (ok : TableOk t) :
     intro p hp
     obtain ⟨cb, hcb, rfl⟩ := List.mem_map.1 hp
     exact (cbGood_enc cb (hflatGood cb hcb)).2.1
-  have hitemsLast : ∀ p, rowItems.getLast? = some p → p.2.val ≠ some (.bytes []) := by
-    intro p hp
-    simp only [rowItems, List.getLast?_map, Option.map_eq_some_iff] at hp
-    obtain ⟨cb, hcb, rfl⟩ := hp
-    have := ok.lastNonEmpty cb (by rw [← hWr']; exact hcb)
-    intro h
-    apply this
-    simp only [rtCb, Option.map_eq_some_iff] at h
-    obtain ⟨v, hv, hv2⟩ := h
-    rw [hv, rtVal_empty hv2]
   have hfuel : rowItems.length ≤ (rowItems.flatMap (·.1)).length := by
     apply length_le_flatMap
     intro p hp
     obtain ⟨cb, hcb, rfl⟩ := List.mem_map.1 hp
     have := (cbGood_enc cb (hflatGood cb hcb)).2.2
     simp only; omega
-  have hloop := tableLoop_enc rowItems hitemsEnc hitemsLast
+  have hloop := tableLoop_enc rowItems hitemsEnc
   let stR : TS := { TS.empty with tcb := some (rtCb (tcbOf t)) }
   let rtRows : List (List Cb) := W.rows.map (·.map rtCb)
   have hsnd : rowItems.map (·.2) = rtRows.flatten := by
@@ -175,21 +160,13 @@ theorem table_roundtrip (t : TableSpec) (ok : TableOk t) :
     intro r hr
     obtain ⟨r0, hr0, rfl⟩ := List.mem_map.1 hr
     exact rowOk_map_rt r0 (hRowOkAll r0 (hkeptMem r0 hr0))
-  have hrtMnemOk : ∀ r ∈ rtRows, MnemOk r := by
-    intro r hr
-    obtain ⟨r0, hr0, rfl⟩ := List.mem_map.1 hr
-    exact mnemOk_map_rt r0 (ok.mnemCol r0 (hkeptMem r0 hr0))
   have hreg := reader_regroup rtRows hrtRowOk stR rfl
   rw [indexLast_nil stR rfl] at hreg
   have hreg' : (stepAll rtRows.flatten stR).bind indexLast = runRows rtRows stR := hreg
-  obtain ⟨R, hR, hRt, hRinv, hRr, hRc⟩ := runRows_spec rtRows hrtMnemOk stR ⟨rfl, rfl⟩
+  obtain ⟨R, hR, hRt, hRinv, hRr, hRc⟩ := runRows_spec rtRows stR ⟨rfl, rfl⟩
   have hread : tableRead ([t.lrType, 0] ++ (encRaw (tcbOf t) ++ rowItems.flatMap (·.1))) = .ok R := by
     have hfirst : readCb (encRaw (tcbOf t) ++ rowItems.flatMap (·.1)) = .ok (rtCb (tcbOf t), rowItems.flatMap (·.1)) := by
-      apply (cbGood_enc _ hgoodT).2.1.2
-      intro h
-      exfalso
-      simp only [rtCb, tcbOf, cellCb, Option.map_some, Option.some.injEq] at h
-      exact ok.nameNe (rtVal_empty h)
+      exact (cbGood_enc _ hgoodT).2.1.2 _
     have hu2 : unpackN 2 ([t.lrType, 0] ++ (encRaw (tcbOf t) ++ rowItems.flatMap (·.1)))
         = .ok ([t.lrType, 0], encRaw (tcbOf t) ++ rowItems.flatMap (·.1)) :=
       unpackN_append [t.lrType, 0] _ (by simp)
@@ -242,14 +219,13 @@ theorem keyEq_refl (k : Option Val) : keyEq k k = true := by
 /-- **Duplicate rows are dropped with the first kept** (reader, on any stream of rows — also hand-assembled ones):
 after the table block, reading rows `rows` (each a type-0 block followed by type-69 blocks) leaves exactly
 `kept rows`, in order, and the row index lists their names. -/
-theorem dupe_rows_first_kept (tcb : Cb) (rows : List (List Cb)) (hrows : ∀ r ∈ rows, RowOk r)
-    (hm : ∀ r ∈ rows, MnemOk r) :
+theorem dupe_rows_first_kept (tcb : Cb) (rows : List (List Cb)) (hrows : ∀ r ∈ rows, RowOk r) :
     ∃ R, (stepAll rows.flatten { TS.empty with tcb := some tcb }).bind indexLast = .ok R ∧
       R.rows = kept rows ∧ R.rowIdx.map (·.1) = (kept rows).map rowValue ∧
       R.rowIdx.map (·.2) = List.range (kept rows).length := by
   have hreg := reader_regroup rows hrows { TS.empty with tcb := some tcb } rfl
   rw [indexLast_nil _ rfl] at hreg
-  obtain ⟨R, hR, _, hinv, hr, _⟩ := runRows_spec rows hm { TS.empty with tcb := some tcb } ⟨rfl, rfl⟩
+  obtain ⟨R, hR, _, hinv, hr, _⟩ := runRows_spec rows { TS.empty with tcb := some tcb } ⟨rfl, rfl⟩
   have hr' : R.rows = kept rows := by simpa [TS.empty, kept] using hr
   exact ⟨R, by rw [hreg]; exact hR, hr', by rw [hinv.names, hr'], by rw [hinv.idx, hr']⟩
 
@@ -688,7 +664,7 @@ theorem ebs_subset_legal (bl : List EB) (hbl : ∀ e ∈ bl, EBLegal e ∧ e.typ
 def exTable : TableSpec :=
   ⟨34, .bytes [70, 73, 76, 77], [mnemMNEM, [71, 67, 79, 68], [76, 69, 68, 71]],
    [[⟨.bytes [49, 32, 32, 32], none⟩, ⟨.int 300, none⟩, ⟨.float ⟨-5, 4⟩, some [77, 86, 32, 32]⟩],
-    [⟨.bytes [50, 32, 32, 32], none⟩, ⟨.int (-7), none⟩, ⟨.float ⟨1, -1⟩, none⟩],
+    [⟨.int 7, none⟩, ⟨.int (-7), none⟩, ⟨.bytes [], none⟩],
     [⟨.bytes [49, 32, 32, 32], none⟩, ⟨.bytes [], none⟩, ⟨.int 70000, none⟩]]⟩
 
 example : (kept (allRowCbs exTable)).length = 2 := by decide
@@ -724,30 +700,16 @@ def exCheckDfsr (E : List EB) (ch : List ChanSpec) : Bool :=
 example : exCheckDfsr (evenOf ebsInit) [⟨[68, 69, 80, 84], [83, 101, 114, 118, 73, 68], [83, 101, 114, 118, 79, 114, 100, 78],
     [70, 69, 69, 84], 45310011, 256, 96, 4, 68⟩] = true := by decide
 
-/-- the hypotheses of `table_roundtrip` are satisfiable by a table with a duplicate row, an empty byte cell (not last),
-integers of two sizes, floats with units -/
+/-- the hypotheses of `table_roundtrip` are satisfiable by a table with a duplicate row, integers of two sizes, floats
+with units, an integer in a `MNEM` column and an empty byte string as the very last cell (the two former findings) -/
 example : TableOk exTable where
   lrType := rfl
   nameLegal := by simp [exTable, Val.legal]
-  nameNe := by simp [exTable]
   mnems4 := by simp [exTable, mnemMNEM]
   mnemsNodup := by decide
   mnemsNe := by simp [exTable]
   rowLen := by simp [exTable]
   cells := by simp [exTable, Val.legal, unitsOf, spaces4]
   stableNames := by simp [exTable, rtVal]
-  mnemCol := by
-    intro r hr
-    simp only [allRowCbs, exTable, List.map_cons, List.map_nil, List.mem_cons, List.mem_nil_iff, or_false] at hr
-    rcases hr with rfl | rfl | rfl
-    · exact Or.inr ⟨cellCb 0 mnemMNEM ⟨.bytes [49, 32, 32, 32], none⟩, [49, 32, 32, 32], by decide, rfl⟩
-    · exact Or.inr ⟨cellCb 0 mnemMNEM ⟨.bytes [50, 32, 32, 32], none⟩, [50, 32, 32, 32], by decide, rfl⟩
-    · exact Or.inr ⟨cellCb 0 mnemMNEM ⟨.bytes [49, 32, 32, 32], none⟩, [49, 32, 32, 32], by decide, rfl⟩
-  lastNonEmpty := by
-    intro cb h
-    have : ((kept (allRowCbs exTable)).flatten).getLast? = some (cellCb 69 [76, 69, 68, 71] ⟨.float ⟨1, -1⟩, none⟩) := by decide
-    rw [this] at h
-    cases h
-    simp [cellCb]
 
 end TD.C08
